@@ -1,9 +1,8 @@
 """C10 - Lists and tables keep their shape.
 
-R10.1 cell/row isolation (pop-then-push), R10.2 phantom creation table,
-R10.3 end-class tables (who ends what, and which delimiter is consumed),
-R10.4 span bookkeeping on every arm, R10.5 rule placement scans,
-R10.6 one fresh column object per column of the specification."""
+R10.1 cell/row isolation (pop-then-push), R10.2 phantom creation, R10.3 digestion of rows, cells and items on token
+streams, R10.4 span bookkeeping, R10.5 rule placement scans, R10.6 column specification - R10.2..R10.6 are decided by
+interpreting the table and list methods on small DOM heaps and token streams (domheap), not from the wording of the code."""
 import ast
 import re
 
@@ -12,6 +11,7 @@ from .. import flow
 from .. import model as M
 from ..report import AnalysisError, need
 from ..util import SelfHooks, text
+from . import domheap as D
 
 ARR = 'plasTeX.Base.LaTeX.Arrays'
 
@@ -58,224 +58,554 @@ def r101(chk, m):
         chk.verdict(R, 'eqnarray.EndRow.invoke', ok, 'eqnarray.EndRow.invoke neither pops/pushes nor delegates to Array.EndRow.invoke: %s' % calls, chk.where(fn))
 
 
-class ElemHooks(SelfHooks):
-    def call(self, interp, node, fname, args, kwargs, state):
-        if fname.endswith('createElement') and len(args) == 1 and isinstance(args[0], str):
-            return A.Sym('new:%s' % args[0], truthy=True)
+# ---------------------------------------------------------------------------
+class TableHooks(D.DomHooks):
+    """Tables and lists on the DOM heap: isinstance by the class of the heap object, context operations and the digestion of
+    ordinary tokens as events, the TeX object of compileColspec as a scripted token stream."""
+
+    def __init__(self, model, cls, own_digest=()):
+        D.DomHooks.__init__(self, model, cls)
+        self.own_digest = own_digest       # classes whose digest() is interpreted (the table / list classes under analysis)
+
+    def _classes(self, v):
+        if isinstance(v, M.ClassInfo):
+            return [v]
+        if isinstance(v, (tuple, list)) and v and all(isinstance(x, M.ClassInfo) for x in v):
+            return list(v)
         return None
 
-    def lookup(self, interp, name, state):
-        if name == 'self':
-            return A.Sym('self', truthy=True)
-        return SelfHooks.lookup(self, interp, name, state)
+    def call(self, interp, node, fname, args, kwargs, state):
+        if fname == 'isinstance' and len(args) == 2 and isinstance(args[0], (A.Obj, A.TextObj)):
+            ks = self._classes(args[1])
+            if ks is not None:
+                c = args[0].cls if isinstance(args[0], A.Obj) else None
+                if isinstance(c, M.ClassInfo):
+                    mro = self.model.mro(c)
+                    return any(k in mro for k in ks)
+                return False
+        if fname == 'isinstance' and len(args) == 2 and args[0] is None and self._classes(args[1]) is not None:
+            return False
+        ev = state.env.setdefault('__events', [])
+        if re.search(r'\.context\.(pop|push)$', fname):
+            ev.append(fname.rsplit('.', 1)[1])
+            return A.NONE
+        if isinstance(node.func, ast.Attribute):
+            attr = node.func.attr
+            if attr == 'digest' and len(args) == 1:
+                recv = interp.ev(node.func.value, state)
+                if isinstance(recv, A.Obj) and isinstance(recv.cls, M.ClassInfo) and any(k in self.model.mro(recv.cls) for k in self.own_digest):
+                    return None
+                if isinstance(recv, (A.Obj, A.TextObj)):
+                    ev.append(('digest', D.label_of(recv)))
+                    return A.NONE
+            if attr == 'digest' and len(args) == 2 and text(node.func.value) in ('Environment', 'Command', 'Macro'):
+                ev.append('base-digest')
+                st = args[1]
+                state.env['__left_at_base'] = [D.label_of(x) for x in st.items[st.pos:]] if isinstance(st, A.Iter) else None
+                return A.NONE
+            if attr == 'paragraphs' and isinstance(node.func.value, ast.Name) and node.func.value.id == 'self':
+                ev.append('paragraphs')
+                return A.NONE
+            if attr in ('parse',) and isinstance(node.func.value, ast.Name) and node.func.value.id == 'self':
+                ev.append('parse')
+                return A.NONE
+            if attr == 'invoke' and args and isinstance(args[0], (A.Obj,)) and text(node.func.value) in ('Environment', 'Command', 'Macro'):
+                ev.append('base-invoke')
+                return A.NONE
+        # the TeX object of compileColspec
+        if isinstance(node.func, ast.Attribute) and isinstance(node.func.value, ast.Name):
+            recv = state.env.get(node.func.value.id)
+            if isinstance(recv, A.Obj) and '__stream' in recv.attrs:
+                st = recv.attrs['__stream']
+                attr = node.func.attr
+                if attr == 'pushToken' and len(args) == 1:
+                    st.push(args[0])
+                    return A.NONE
+                if attr == 'pushTokens' and len(args) == 1:
+                    seq = args[0]
+                    if isinstance(seq, A.Iter):
+                        items = list(seq.items[seq.pos:])
+                        seq.pos = len(seq.items)
+                    elif isinstance(seq, (list, tuple)):
+                        items = list(seq)
+                    else:
+                        return None
+                    for x in reversed(items):
+                        st.push(x)
+                    return A.NONE
+                if attr == 'itertokens' and not args:
+                    return st
+                if attr == 'readArgument':
+                    x = st.take()
+                    while isinstance(x, A.TextObj) and not str(x).strip():
+                        x = st.take()
+                    if x is A.STOP:
+                        return A.TOP
+                    val = x.attrs.get('__group') if isinstance(x, A.Obj) else [x]
+                    if 'type' in kwargs:
+                        try:
+                            return int(''.join(str(t) for t in val))
+                        except ValueError:
+                            return A.TOP
+                    return list(val)
+        if fname.endswith('columnTypes.get') and len(args) == 2 and isinstance(args[0], str):
+            return A.Sym('coltype:%s' % str(args[0]), truthy=True)
+        callee = None
+        if isinstance(node.func, ast.Name):
+            callee = state.env.get(node.func.id)
+        elif isinstance(node.func, ast.Call) and M.call_name(node.func).endswith('columnTypes.get'):
+            callee = interp.ev(node.func, state)
+        if isinstance(callee, A.Sym) and callee.label.startswith('coltype:') and not args:
+            k = state.env.get('__ncols', 0)
+            state.env['__ncols'] = k + 1
+            return A.Obj('column%d(%s)' % (k, callee.label[8:]), {'style': {'text-align': callee.label[8:]}, 'before': [], 'after': [], 'between': [],
+                                                                  '__eqkey': ('column', k)}, cls=None)
+        return D.DomHooks.call(self, interp, node, fname, args, kwargs, state)
 
 
+def trun(m, fn, env, cls, own_digest=(), inline=16, max_iter=14, filt=None):
+    h = TableHooks(m, cls, own_digest)
+    if filt is not None:
+        h.should_inline = filt
+    it = A.Interp(model=m, scope=fn, hooks=h, max_iter=max_iter, exc_edges=False, inline=inline, heap=True, precise_exc=True, max_states=20000)
+    outs = it.run_function(fn, env=env)
+    if it.imprecise:
+        raise D.Imprecise('; '.join(sorted(set(it.imprecise))[:3]))
+    return outs
+
+
+def tree(n):
+    """label[children] of a heap node"""
+    kids = D.children(n)
+    if not kids:
+        return D.label_of(n)
+    return '%s[%s]' % (D.label_of(n), ' '.join(tree(k) for k in kids))
+
+
+def classes(m):
+    Array = m.cls(ARR, 'Array')
+    need(all(k in Array.nested for k in ('ArrayRow', 'ArrayCell', 'CellDelimiter', 'EndRow', 'hline', 'vline', 'cline', 'multicolumn', 'BorderCommand')),
+         'the nested table classes of Array were not found')
+    return Array, Array.nested
+
+
+def stream_left(st):
+    return [D.label_of(x) for x in st.items[st.pos:]]
+
+
+def outcomes(outs, fmt):
+    got = set()
+    for kind, s, v in outs:
+        if kind == 'return':
+            got.add(fmt(s, v))
+        elif kind == 'raise':
+            got.add('raises %s' % (v,))
+    return got
+
+
+# ---------------------------------------------------------------------------
 def r102(chk, m):
-    R = chk.rule('R10.2', 'phantom creation: table begin -> [self, row, cell]; & -> [self, cell]; row end -> [self, row, cell]', 3)
-    Array = m.cls(ARR, 'Array')
+    R = chk.rule('R10.2', 'phantom creation, interpreted: table begin returns [self, new row, new cell] after opening the cell frame; '
+                 '& returns [self, new cell]; a row end returns [self, new row, new cell]; the end of the table closes the frame and '
+                 'creates nothing', 4)
+    Array, N = classes(m)
     Macro = m.cls('plasTeX', 'Macro')
-    cases = [('Array.invoke (begin)', m.find_method(Array, 'invoke'), Array, ['self', 'new:ArrayRow', 'new:ArrayCell']),
-             ('Array.CellDelimiter.invoke', m.find_method(Array.nested['CellDelimiter'], 'invoke'), Array.nested['CellDelimiter'], ['self', 'new:ArrayCell']),
-             ('Array.EndRow.invoke', m.find_method(Array.nested['EndRow'], 'invoke'), Array.nested['EndRow'], ['self', 'new:ArrayRow', 'new:ArrayCell'])]
-    for label, fn, cls, want in cases:
+    cases = [('table begin', Array, m.find_method(Array, 'invoke'), {'macroMode': m.class_const(Macro, 'MODE_BEGIN')}, ('self ArrayRow ArrayCell', 'push')),
+             ('table end', Array, m.find_method(Array, 'invoke'), {'macroMode': m.class_const(Macro, 'MODE_END')}, ('None', 'pop')),
+             ('cell delimiter', N['CellDelimiter'], m.find_method(N['CellDelimiter'], 'invoke'), {}, ('self ArrayCell', 'pop push')),
+             ('row end', N['EndRow'], m.find_method(N['EndRow'], 'invoke'), {}, ('self ArrayRow ArrayCell', 'pop push'))]
+    for label, cls, fn, attrs, want in cases:
         chk.analysed(fn)
-        it = A.Interp(model=m, scope=fn, hooks=ElemHooks(m, cls), max_iter=1, exc_edges=False)
-        outs = it.run_function(fn, env={'self.macroMode': m.class_const(Macro, 'MODE_BEGIN')})
-        got = set()
-        for kind, s, v in outs:
-            if kind == 'return':
-                got.add(repr([x.label if isinstance(x, A.Sym) else repr(x) for x in v]) if isinstance(v, list) else repr(v))
-        chk.verdict(R, label, got == {repr(want)}, '%s returns %s, expected %s' % (label, sorted(got), want), chk.where(fn), str(sorted(got)))
+        d = D.Dom(m)
+        me = d.elem('self')
+        me.cls = cls
+        me.attrs.update(attrs)
+        me.attrs['attributes'] = {}
+        me.attrs['ownerDocument'] = d.doc
+        tex = A.Obj('tex', {})
+
+        def fmt(s, v):
+            names = ' '.join(('self' if x is s.env['self'] else str(x.attrs.get('nodeName'))) if isinstance(x, A.Obj) else repr(x) for x in v) \
+                if isinstance(v, list) else repr(v)
+            if isinstance(v, list) and len({id(x) for x in v}) != len(v):
+                names += ' (the same object twice)'
+            return (names, ' '.join(e for e in s.env.get('__events', []) if e in ('pop', 'push')))
+        try:
+            outs = trun(m, fn, {'self': me, 'tex': tex}, cls)
+        except D.Imprecise as e:
+            chk.undecided(R, label, str(e), chk.where(fn))
+            continue
+        got = outcomes(outs, fmt)
+        chk.decide(R, label, got, {want}, '%s: returned nodes / context operations %s, expected %s - the phantom row and cell absorb the '
+                   'tokens up to the next delimiter' % (label, sorted(got, key=repr), want), chk.where(fn), str(sorted(got, key=repr)))
 
 
+# ---------------------------------------------------------------------------
 def r103(chk, m):
-    R = chk.rule('R10.3', 'end-class tables: a row digests until a row end and consumes it; a cell digests until a cell delimiter '
-                 'or a row end and consumes only a cell delimiter; an item digests until the next item of a list', 4)
-    Array = m.cls(ARR, 'Array')
-    row = m.find_method(Array.nested['ArrayRow'], 'digest')
-    cell = m.find_method(Array.nested['ArrayCell'], 'digest')
-    chk.analysed(row)
-    chk.analysed(cell)
+    R = chk.rule('R10.3', 'digestion on token streams (DOM heap): a cell absorbs the tokens up to the next cell delimiter or row end and '
+                 'consumes only a cell delimiter; a row absorbs its cells up to the row end and consumes it; an item absorbs everything '
+                 'up to the next item of its list (nested lists stay inside); nothing beyond is taken from the stream; a cell takes '
+                 'its span from a \\multicolumn it holds', 9)
+    Array, N = classes(m)
+    Cell, Row = N['ArrayCell'], N['ArrayRow']
+    List = m.cls('plasTeX.Base.LaTeX.Lists', 'List')
+    Item = List.nested['item']
+    MacroC = m.cls('plasTeX', 'Macro')
+    celld = m.find_method(Cell, 'digest')
+    rowd = m.find_method(Row, 'digest')
+    itemd = m.find_method(Item, 'digest')
+    for f in (celld, rowd, itemd, m.func('plasTeX', 'Macro.digestUntil')):
+        chk.analysed(f)
 
-    def until_args(fn):
-        return [text(c.args[1]) for c in M.calls_in(fn.node) if M.call_name(c) == 'self.digestUntil' and len(c.args) == 2]
-    ra = until_args(row)
-    chk.verdict(R, 'ArrayRow.digest end class', ra == ['Array.EndRow'], 'a row must digest until Array.EndRow, found %s' % ra, chk.where(row), str(ra))
-    ca = until_args(cell)
-    chk.verdict(R, 'ArrayCell.digest end classes', [a.replace(' ', '') for a in ca] == ['(Array.CellDelimiter,Array.EndRow)'],
-                'a cell must digest until (Array.CellDelimiter, Array.EndRow), found %s' % ca, chk.where(cell), str(ca))
-    # consumption: next(tokens) guarded by the matching test
-    def next_guards(fn):
-        from .c06 import guard_chain
-        from .c07 import parent_stmt
-        out = []
-        for c in M.calls_in(fn.node):
-            if M.call_name(c) == 'next' and c.args and text(c.args[0]) == 'tokens':
-                out.append(guard_chain(fn.node, parent_stmt(fn.node, c)))
-        return out
-    rg = next_guards(row)
-    chk.verdict(R, 'ArrayRow.digest consumes its row end', rg == [['self.endToken is not None']],
-                'the row must consume exactly the row end it stopped at (guards of next(tokens): %s)' % rg, chk.where(row), str(rg))
-    cg = next_guards(cell)
-    chk.verdict(R, 'ArrayCell.digest consumes only a cell delimiter', cg == [['isinstance(self.endToken, Array.CellDelimiter)']],
-                'a cell must consume the delimiter only when it is a cell delimiter - a row end belongs to the row (guards: %s)' % cg,
-                chk.where(cell), str(cg))
-    item = m.func('plasTeX.Base.LaTeX.Lists', 'List.item.digest')
-    chk.analysed(item)
-    ia = until_args(item)
-    chk.verdict(R, 'List.item.digest end class', ia == ['List.item'], 'an item must digest until the next List.item, found %s' % ia, chk.where(item), str(ia))
-    du = m.func('plasTeX', 'Macro.digestUntil')
-    chk.analysed(du)
-    src = text(du.node)
-    ok = 'isinstance(tok, endclass)' in src and 'tokens.push(tok)' in src
-    chk.verdict(R, 'digestUntil pushes the end token back', ok, 'digestUntil must push the end token back for its owner', chk.where(du))
+    def mk(d, kind, label, depth=5, **kw):
+        if kind == 'text':
+            t = d.text(label, kw.get('value', label))
+            t.attrs['contextDepth'] = depth
+            return t
+        cls = {'amp': N['CellDelimiter'], 'endrow': N['EndRow'], 'cell': Cell, 'row': Row, 'item': Item, 'multicolumn': N['multicolumn'],
+               'hline': N['hline'], 'list': List, 'macro': MacroC, 'end': MacroC}[kind]
+        e = d.elem(label)
+        e.cls = cls
+        e.attrs.update(contextDepth=depth, endToken=None, attributes=kw.get('attributes', {}), style={}, forcePars=True)
+        e.attrs.pop('blockType', None)
+        return e
+
+    def run(fn, cls, selfnode, toks):
+        st = A.Stream(toks)
+        outs = trun(m, fn, {'self': selfnode, 'tokens': st, '__me': selfnode, '__st': st}, cls, own_digest=(Cell, Row, Item),
+                    filt=lambda fname, node, info: info is None or getattr(node, 'name', '') not in ('paragraphs',))
+
+        def fmt(s, v):
+            me = s.env['__me']
+            end = me.attrs.get('endToken')
+
+            def attrs_of(n):
+                a = n.attrs.get('attributes') if isinstance(n, A.Obj) else None
+                return ('colspan=%s' % a['colspan']) if isinstance(a, dict) and 'colspan' in a else ''
+
+            def t(n):
+                kids = D.children(n)
+                extra = ''
+                if isinstance(n, A.Obj) and n.cls in (Cell, Row) and n is not me:
+                    e2 = n.attrs.get('endToken')
+                    extra = '<end=%s>' % (D.label_of(e2) if e2 is not None else None)
+                a = attrs_of(n)
+                if a and n.cls is Cell and n is not me:
+                    extra += '<%s>' % a
+                if not kids:
+                    return D.label_of(n) + extra
+                return '%s%s[%s]' % (D.label_of(n), extra, ' '.join(t(k) for k in kids))
+            return '%s end=%s%s left=%s' % (t(me), D.label_of(end) if end is not None else None,
+                                           (' ' + attrs_of(me)) if attrs_of(me) and me.cls is Cell else '', ' '.join(stream_left(s.env['__st'])))
+        return outcomes(outs, fmt)
+
+    def case(label, fn, cls, build, want, why):
+        d = D.Dom(m)
+        me, toks = build(d)
+        try:
+            got = run(fn, cls, me, toks)
+        except D.Imprecise as e:
+            chk.undecided(R, label, str(e), chk.where(fn))
+            return
+        chk.decide(R, label, got, {want}, '%s: %s, expected %s - %s' % (label, sorted(got), want, why), chk.where(fn), str(sorted(got)))
+
+    case('a cell ended by &', celld, Cell,
+         lambda d: (mk(d, 'cell', 'cell'), [mk(d, 'text', 'a'), mk(d, 'macro', 'm'), mk(d, 'amp', 'amp'), mk(d, 'cell', 'next'), mk(d, 'text', 'b')]),
+         'cell[a m] end=amp left=next b', 'the delimiter is consumed, the next cell stays in the stream')
+    case('a cell ended by the row end', celld, Cell,
+         lambda d: (mk(d, 'cell', 'cell'), [mk(d, 'text', 'a'), mk(d, 'endrow', 'endrow'), mk(d, 'row', 'nextrow')]),
+         'cell[a] end=None left=endrow nextrow', 'the row end belongs to the row: the cell must leave it in the stream')
+    case('a cell ended by the end of the table', celld, Cell,
+         lambda d: (mk(d, 'cell', 'cell'), [mk(d, 'text', 'a'), mk(d, 'end', 'endtable', depth=3), mk(d, 'text', 'after', depth=3)]),
+         'cell[a] end=None left=endtable after', 'a token from outside the cell\'s group ends it and stays in the stream')
+    case('an empty cell', celld, Cell,
+         lambda d: (mk(d, 'cell', 'cell'), [mk(d, 'amp', 'amp'), mk(d, 'cell', 'next')]),
+         'cell end=amp left=next', 'an empty cell consumes exactly its delimiter')
+    case('a cell holding a \\multicolumn', celld, Cell,
+         lambda d: (mk(d, 'cell', 'cell'), [mk(d, 'multicolumn', 'mc', attributes={'colspan': 3}), mk(d, 'amp', 'amp'), mk(d, 'cell', 'next')]),
+         'cell[mc] end=amp colspan=3 left=next', 'the cell takes the span of the \\multicolumn it holds')
+    case('a row of two cells', rowd, Row,
+         lambda d: (mk(d, 'row', 'row'), [mk(d, 'cell', 'c1'), mk(d, 'text', 'a'), mk(d, 'amp', 'amp'), mk(d, 'cell', 'c2'), mk(d, 'text', 'b'),
+                                         mk(d, 'endrow', 'endrow'), mk(d, 'row', 'nextrow'), mk(d, 'cell', 'c3')]),
+         'row[c1<end=amp>[a] c2<end=None>[b]] end=endrow left=nextrow c3', 'the row consumes exactly its row end; the next row stays in the stream')
+    case('the last row of a table', rowd, Row,
+         lambda d: (mk(d, 'row', 'row'), [mk(d, 'cell', 'c1'), mk(d, 'text', 'a'), mk(d, 'end', 'endtable', depth=3)]),
+         'row[c1<end=None>[a]] end=None left=endtable', 'without a row end nothing is consumed beyond the cells')
+    case('a row with a spanning cell', rowd, Row,
+         lambda d: (mk(d, 'row', 'row'), [mk(d, 'cell', 'c1'), mk(d, 'multicolumn', 'mc', attributes={'colspan': 2}), mk(d, 'amp', 'amp'),
+                                         mk(d, 'cell', 'c2'), mk(d, 'text', 'b'), mk(d, 'endrow', 'endrow')]),
+         'row[c1<end=amp><colspan=2>[mc] c2<end=None>[b]] end=endrow left=', 'spans are recorded cell by cell')
+    case('an item up to the next item', itemd, Item,
+         lambda d: (mk(d, 'item', 'item'), [mk(d, 'text', 'ws', value=' '), mk(d, 'text', 'a'), mk(d, 'list', 'nestedlist'), mk(d, 'text', 'b'),
+                                           mk(d, 'item', 'item2'), mk(d, 'text', 'c')]),
+         'item[a nestedlist b] end=None left=item2 c', 'one item per \\item, holding everything up to the next \\item')
+    # the list itself: blanks and blank lines before the first item are dropped
+    listd = m.find_method(List, 'digest')
+    chk.analysed(listd)
+    Par = m.cls('plasTeX.Base.TeX.Primitives', 'par')
+
+    def build_list(d):
+        lst = mk(d, 'list', 'list')
+        lst.attrs['macroMode'] = m.class_const(MacroC, 'MODE_BEGIN')
+        par = d.elem('blankline', childlist=False)
+        par.cls = Par
+        par.attrs.pop('isElementContentWhitespace', None)
+        par.attrs['contextDepth'] = 5
+        return lst, [mk(d, 'text', 'ws', value=' '), par, mk(d, 'text', 'ws2', value='\n'), mk(d, 'item', 'item1'), mk(d, 'text', 'a'), mk(d, 'item', 'item2')]
+    d = D.Dom(m)
+    me, toks = build_list(d)
+    st = A.Stream(toks)
+    try:
+        outs = trun(m, listd, {'self': me, 'tokens': st}, List, own_digest=())
+        got = outcomes(outs, lambda s, v: 'the items are digested from: %s' % ' '.join(s.env.get('__left_at_base') or ['?']))
+        chk.decide(R, 'a list with a blank line before the first item', got, {'the items are digested from: item1 a item2'},
+                   'the list starts absorbing at %s, expected at its first item - a blank line before the first \\item becomes a child of the '
+                   'list and swallows the items' % sorted(got), chk.where(listd))
+    except D.Imprecise as e:
+        chk.undecided(R, 'a list with a blank line before the first item', str(e), chk.where(listd))
+    case('the last item of a list', itemd, Item,
+         lambda d: (mk(d, 'item', 'item'), [mk(d, 'text', 'a'), mk(d, 'end', 'endlist', depth=3), mk(d, 'text', 'after', depth=3)]),
+         'item[a] end=None left=endlist after', 'the end of the list ends the item and stays in the stream')
 
 
-class SpanHooks(A.Hooks):
-    def call(self, interp, node, fname, args, kwargs, state):
-        if fname.endswith('attributes.get') and args and args[0] == 'colspan':
-            return A.Sym('SPAN', truthy=True)
-        return None
-
-    def keep(self, ev):
-        return ev[0] in ('aug', 'assume', 'continue')
-
-
+# ---------------------------------------------------------------------------
 def r104(chk, m):
-    R = chk.rule('R10.4', 'span bookkeeping: every statement that advances a running column number while iterating over the cells '
-                 'of a row adds that cell\'s own span (default 1) - on every arm of the loop body', 3)
-    Array = m.cls(ARR, 'Array')
-    fn = m.find_method(Array.nested['BorderCommand'], 'applyBorders')
+    R = chk.rule('R10.4', 'span bookkeeping on the heap: a rule command marks exactly the cells whose columns lie in its span, counting '
+                 'each cell by its own span (default 1); the column count of the table is the largest sum of spans of a row; the '
+                 'column specification is applied column by column with spanning cells counted by their span', 10)
+    Array, N = classes(m)
+    Cell, Row = N['ArrayCell'], N['ArrayRow']
+    fn = m.find_method(N['BorderCommand'], 'applyBorders')
     chk.analysed(fn)
-    loops = [n for n in M.walk_no_nested(fn.node) if isinstance(n, ast.For) and text(n.iter) == 'cells']
-    need(len(loops) == 1, 'BorderCommand.applyBorders: cell loop not found')
-    loop = loops[0]
-    cell = A.Sym('CELL', truthy=True, attrs={'distinct': True})
-    it = A.Interp(model=m, scope=fn, hooks=SpanHooks(), max_iter=1, exc_edges=False)
-    outs = it.block(loop.body, [A.State({text(loop.target): cell, 'colnum': A.Sym('COL')})])
-    bad = []
-    n = 0
-    for kind in ('fall', 'continue', 'break'):
-        for s, v in outs.get(kind, []):
-            n += 1
-            ass = {e[1]: e[2] for e in s.trace if e[0] == 'assume'}
-            has_attrs = ass.get('cell.attributes')
-            augs = [e for e in s.trace if e[0] == 'aug' and e[1] == 'colnum']
-            want = 'SPAN' if has_attrs else 1
-            vals = []
-            for e in augs:
-                v2 = e[3]
-                # resolve a local name holding the span
-                if isinstance(v2, str) and v2 in s.env:
-                    v2 = s.env[v2]
-                vals.append(v2.label if isinstance(v2, A.Sym) else v2)
-            if vals != [want]:
-                arm = 'skipping arm' if any('colnum' in k and v3 for k, v3 in ass.items()) else 'applying arm'
-                bad.append('%s (cell %s attributes): column number advanced by %s, expected [%s]'
-                           % (arm, 'with' if has_attrs else 'without', vals, want))
-    chk.paths += n
-    chk.verdict(R, 'BorderCommand.applyBorders advances by the span on every arm', not bad and n >= 3,
-                '; '.join(sorted(set(bad))) + ' - \\cline after a \\multicolumn lands on the wrong cells', chk.where(fn, loop), '%d paths' % n)
-    # sibling sites
+
+    def cells(d, spans):
+        out = []
+        for i, sp in enumerate(spans):
+            c = d.elem('cell%d' % i)
+            c.cls = Cell
+            c.attrs['attributes'] = None if sp is None else ({} if sp == 1 else {'colspan': sp})
+            c.attrs['style'] = {}
+            out.append(c)
+        return out
+    layouts = [('plain cells', [None, 1, 1, 1]), ('a spanning cell first', [2, 1, 1]), ('a spanning cell in the middle', [1, 2, 1]),
+               ('two spanning cells', [2, 2])]
+    spans = [None, 1, 2, 3, 4, (1, 2), (2, 3), (3, 4), (2, 4)]
+    for lname, layout in layouts:
+        for sp in spans:
+            d = D.Dom(m)
+            cs = cells(d, layout)
+            rule = d.elem('rule')
+            rule.cls = N['cline']
+            rule.attrs['attributes'] = {} if sp is None else {'span': list(sp) if isinstance(sp, tuple) else sp}
+            rule.attrs['position'] = 0
+            lo, hi = (-10 ** 9, 10 ** 9) if sp is None else (sp if isinstance(sp, tuple) else (sp, sp))
+            col, want = 1, []
+            for c, w in zip(cs, layout):
+                if lo <= col <= hi:
+                    want.append(c.label)
+                col += (w or 1)
+            key = 'rule over columns %s on %s' % ('all' if sp is None else sp, lname)
+
+            def fmt(s, v):
+                marked = []
+                for c in s.env['cells']:
+                    st = c.attrs.get('style')
+                    ks = sorted(k for k in st if k.startswith('border-')) if isinstance(st, dict) else ['?']
+                    if ks:
+                        if {'border-top-style', 'border-top-color', 'border-top-width'} <= set(ks) and len(ks) == 3:
+                            marked.append(c.label)
+                        else:
+                            marked.append('%s%s' % (c.label, ks))
+                return ' '.join(marked)
+            try:
+                outs = trun(m, fn, {'self': rule, 'cells': cs, 'location': 'top'}, N['BorderCommand'])
+            except D.Imprecise as e:
+                chk.undecided(R, key, str(e), chk.where(fn))
+                continue
+            got = outcomes(outs, fmt)
+            chk.decide(R, key, got, {' '.join(want)}, 'a rule over columns %s of a row with spans %s marks %s, expected %s - the rule lands on the '
+                       'wrong cells' % (sp, [w or 1 for w in layout], sorted(got), want), chk.where(fn), str(sorted(got)))
+    # column count
     link = m.find_method(Array, 'linkCells')
     chk.analysed(link)
-    augs = [n for n in M.walk_no_nested(link.node) if isinstance(n, ast.AugAssign) and text(n.target) == 'numcols']
-    ok = len(augs) == 1 and text(augs[0].value).replace(' ', '') == "cell.attributes.get('colspan',1)"
-    chk.verdict(R, 'Array.linkCells counts columns by span', ok,
-                'the column count of a row must add each cell\'s span (default 1): %s' % [text(a) for a in augs], chk.where(link))
+    for label, rows, want in (('rows of plain cells', [[1, 1], [1, 1, 1]], 3), ('a row with a spanning cell', [[1, 3], [1, 1]], 4),
+                              ('spanning cells only', [[2, 2]], 4)):
+        d = D.Dom(m)
+        rs = []
+        for i, r in enumerate(rows):
+            cs = cells(d, r)
+            for c in cs:
+                if c.attrs['attributes'] is None:
+                    c.attrs['attributes'] = {}
+            row = d.elem('row%d' % i, cs)
+            row.cls = Row
+            rs.append(row)
+        T = d.elem('table', rs)
+        T.cls = Array
+        T.attrs['colspec'] = None
+        try:
+            outs = trun(m, link, {'self': T, '__T': T}, Array)
+        except D.Imprecise as e:
+            chk.undecided(R, 'column count: ' + label, str(e), chk.where(link))
+            continue
+        got = outcomes(outs, lambda s, v: repr(s.env['__T'].attrs.get('numCols')))
+        chk.decide(R, 'column count: ' + label, got, {repr(want)}, 'the column count of rows with spans %s is %s, expected %d (spans add up)'
+                   % (rows, sorted(got), want), chk.where(link))
+    # column specification applied by column
     ab = m.find_method(Array, 'applyBorders')
     chk.analysed(ab)
-    src = text(ab.node)
-    ok = "span = cell.attributes.get('colspan', 1)" in src and 'cells += [cell] * span' in src
-    chk.verdict(R, 'Array.applyBorders expands cells by span for the column specification', ok,
-                'cells must be repeated by their span before being zipped with the column specification', chk.where(ab))
-    # a cell takes its span from a contained multicolumn
-    cd = m.find_method(Array.nested['ArrayCell'], 'digest')
-    ok = any(isinstance(n, ast.Assign) and text(n.targets[0]) == "self.attributes['colspan']" and text(n.value) == "item.attributes['colspan']"
-             for n in M.walk_no_nested(cd.node))
-    mc = Array.nested['multicolumn']
-    margs = m.class_const(mc, 'args')
-    chk.verdict(R, 'ArrayCell copies colspan from \\multicolumn', ok and isinstance(margs, str) and margs.split()[0] == 'colspan:int',
-                'ArrayCell.digest must copy colspan from a contained multicolumn (args %r)' % (margs,), chk.where(cd))
+    for label, layout, want in (('plain cells', [1, 1, 1], 'cell0:A cell1:B cell2:C'), ('a spanning cell first', [2, 1], 'cell0:A+B cell1:C'),
+                                ('a spanning cell last', [1, 2], 'cell0:A cell1:B+C'), ('a \\multicolumn with its own specification', ['own', 1], 'cell0:M cell1:C')):
+        d = D.Dom(m)
+        cs = cells(d, [2 if w == 'own' else w for w in layout])
+        for c, w in zip(cs, layout):
+            if c.attrs['attributes'] is None:
+                c.attrs['attributes'] = {}
+            c.attrs['borders'] = ([], [])
+            if w == 'own':
+                c.attrs['colspec'] = A.Obj('ownspec', {'style': {'M': 1}})
+        row = d.elem('row', cs)
+        row.cls = Row
+        row.attrs['isBorderOnly'] = False
+        T = d.elem('table', [row])
+        T.cls = Array
+        T.attrs['colspec'] = [A.Obj('spec%s' % k, {'style': {k: 1}}) for k in 'ABC']
+
+        def fmt(s, v):
+            out = []
+            for c in D.children(D.children(s.env['__T'])[0]):
+                st = c.attrs.get('style')
+                out.append('%s:%s' % (c.label, '+'.join(sorted(st)) if isinstance(st, dict) else '?'))
+            return ' '.join(out)
+        try:
+            outs = trun(m, ab, {'self': T, '__T': T}, Array)
+        except D.Imprecise as e:
+            chk.undecided(R, 'column specification over ' + label, str(e), chk.where(ab))
+            continue
+        got = outcomes(outs, fmt)
+        chk.decide(R, 'column specification over ' + label, got, {want}, 'the styles of the column specification [A, B, C] land as %s on a row with '
+                   'spans %s, expected %s' % (sorted(got), layout, want), chk.where(ab))
 
 
+# ---------------------------------------------------------------------------
 def r105(chk, m):
-    R = chk.rule('R10.5', 'rule placement: the trailing scan marks rule commands at the end of a cell BORDER_AFTER, the leading scan '
-                 'marks those at the start BORDER_BEFORE; each scan skips only whitespace and stops at the first other item', 2)
-    Array = m.cls(ARR, 'Array')
-    fn = m.find_method(Array.nested['ArrayCell'], 'borders')
+    R = chk.rule('R10.5', 'rule placement on the heap: rule commands at the end of a cell are marked BORDER_AFTER, those at its start '
+                 'BORDER_BEFORE; blanks are skipped, the first other item stops the scan; rules inside the text are not collected', 6)
+    Array, N = classes(m)
+    Cell = N['ArrayCell']
+    fn = Cell.properties.get('borders', {}).get('get')
+    need(fn is not None, 'ArrayCell.borders not found')
     chk.analysed(fn)
-    loops = [n for n in fn.node.body if isinstance(n, ast.For)]
-    need(len(loops) == 2, 'ArrayCell.borders: the two scans were not found')
-    for loop, pos, label in ((loops[0], 'BORDER_AFTER', 'trailing'), (loops[1], 'BORDER_BEFORE', 'leading')):
-        item = A.Sym('ITEM', truthy=True, attrs={'distinct': True})
-        it = A.Interp(model=m, scope=fn, max_iter=1, exc_edges=False)
-        it.h.keep = lambda ev: ev[0] in ('assume', 'setattr', 'call')
-        env = {'item': item, 'horiz': A.Sym('horiz'), 'vert': A.Sym('vert')}
-        if text(loop.target) != 'item':
-            env[text(loop.target)] = A.Sym('i')
-            it.h.call = lambda interp, node, fname, args, kwargs, state: None
-        outs = it.block(loop.body, [A.State(env)])
-        # in the trailing loop `item = self[i]` rebinds; re-run with subscript value
-        bad = []
-        n = 0
-        for kind in ('fall', 'continue', 'break'):
-            for s, v in outs.get(kind, []):
-                n += 1
-                ass = [(e[1], e[2]) for e in s.trace if e[0] == 'assume']
-                true = [k for k, v2 in ass if v2]
-                sets = [e for e in s.trace if e[0] == 'setattr' and e[1] == 'item.position']
-                apps = [e for e in s.trace if e[0] == 'call' and re.fullmatch(r'(horiz|vert)\.append', e[1])]
-                if kind == 'break':
-                    if sets or apps:
-                        bad.append('stops but also marks an item')
-                    continue
-                if any(k.endswith('isElementContentWhitespace') for k in true):
-                    if sets or apps:
-                        bad.append('marks whitespace')
-                    continue
-                hl = any(re.search(r'isinstance\(item, Array\.hline\)', k) for k in true)
-                vl = any(re.search(r'isinstance\(item, Array\.vline\)', k) for k in true)
-                if hl or vl:
-                    wantv = m.class_const(Array.nested['BorderCommand'], pos)
-                    ok = len(sets) == 1 and len(apps) == 1 and apps[0][1].startswith('horiz' if hl else 'vert') and \
-                        (sets[0][2] == wantv or str(sets[0][2]).endswith(pos))
-                    extra = [k for k in true if 'isinstance' not in k]
-                    if not ok:
-                        bad.append('%s rule not marked %s once (%s, %s)' % ('horizontal' if hl else 'vertical', pos, sets, [a[1] for a in apps]))
-                    continue
-                bad.append('an item is skipped under %s (only whitespace may be skipped)' % (true or [k for k, _ in ass]))
-        # any additional guard on the marking paths?
-        tests = {text(n.test) for n in ast.walk(loop) if isinstance(n, ast.If)}
-        allowed = {'item.isElementContentWhitespace', 'isinstance(item, Array.hline)', 'isinstance(item, Array.vline)'}
-        extra = sorted(tests - allowed)
-        chk.paths += n
-        chk.verdict(R, 'ArrayCell.borders %s scan' % label, not bad and not extra and n >= 4,
-                    'the %s scan %s%s' % (label, '; '.join(sorted(set(bad))), (' extra conditions: %s' % extra) if extra else ''),
-                    chk.where(fn, loop), '%d paths' % n)
+    BEFORE = m.class_const(N['BorderCommand'], 'BORDER_BEFORE')
+    AFTER = m.class_const(N['BorderCommand'], 'BORDER_AFTER')
+    need(isinstance(BEFORE, int) and isinstance(AFTER, int) and BEFORE != AFTER, 'BORDER_BEFORE / BORDER_AFTER not found')
+    cases = [('rules before and after the text', 'h1 ws t ws v1 h2', {'h1': 'before', 'v1': 'after', 'h2': 'after'}),
+             ('a rule after the text', 't h1', {'h1': 'after'}),
+             ('a rule before the text', 'h1 ws t', {'h1': 'before'}),
+             ('a vertical rule before the text', 'v1 t', {'v1': 'before'}),
+             ('a rule between two texts', 't h1 t2', {}),
+             ('rules around a macro', 'h1 m h2', {'h1': 'before', 'h2': 'after'}),
+             ('text only', 't ws t2', {}),
+             ('blanks before a leading rule', 'ws h1 t', {'h1': 'before'}),
+             ('a rule alone in the cell (the other cells of the row have text)', 'h1', {'h1': 'before'}),
+             ('rules and blanks only', 'ws h1 ws v1', {'h1': 'before', 'v1': 'before'})]
+    for label, spec, want in cases:
+        d = D.Dom(m)
+        kids = []
+        for name in spec.split():
+            if name.startswith('h') or name.startswith('v'):
+                e = d.elem(name)
+                e.cls = N['hline'] if name[0] == 'h' else N['vline']
+                e.attrs['position'] = None
+            elif name == 'ws':
+                e = d.text('ws%d' % len(kids), ' ')
+            elif name.startswith('t'):
+                e = d.text(name, 'x')
+            else:
+                e = d.elem(name)
+                e.cls = m.cls('plasTeX', 'Macro')
+            kids.append(e)
+        cell = d.elem('cell', kids)
+        cell.cls = Cell
+
+        def fmt(s, v):
+            pos = {}
+            if not (isinstance(v, tuple) and len(v) == 2 and all(isinstance(x, list) for x in v)):
+                return 'returns %r' % (v,)
+            horiz, vert = v
+            for kind, lst in (('h', horiz), ('v', vert)):
+                for x in lst:
+                    if not isinstance(x, A.Obj) or x.label[0] != kind:
+                        return '%s collected as %s' % (D.label_of(x), 'horizontal' if kind == 'h' else 'vertical')
+                    p = x.attrs.get('position')
+                    pos[x.label] = 'before' if p == BEFORE else ('after' if p == AFTER else repr(p))
+            return ' '.join('%s=%s' % kv for kv in sorted(pos.items()))
+        try:
+            outs = trun(m, fn, {'self': cell}, Cell)
+        except D.Imprecise as e:
+            chk.undecided(R, label, str(e), chk.where(fn))
+            continue
+        got = outcomes(outs, fmt)
+        w = ' '.join('%s=%s' % kv for kv in sorted(want.items()))
+        chk.decide(R, label, got, {w}, 'the border commands of a cell holding [%s] are collected as {%s}, expected {%s} - the rule is drawn on '
+                   'the wrong side or lost' % (spec, sorted(got), w), chk.where(fn), str(sorted(got)))
 
 
+# ---------------------------------------------------------------------------
 def r106(chk, m):
-    R = chk.rule('R10.6', 'column specification: every column gets its own fresh ColumnType instance (repetition *{n}{..} re-reads the '
-                 'tokens n times); | marks the adjacent column only', 2)
-    Array = m.cls(ARR, 'Array')
+    R = chk.rule('R10.6', 'column specification on a scripted token stream: one fresh column object per column (also for *{n}{..}), | marks '
+                 'the adjacent column only, arguments of p{..} and @{..} are consumed', 6)
+    Array, N = classes(m)
     fn = m.find_method(Array, 'compileColspec')
     chk.analysed(fn)
-    adds = []
-    for n in M.walk_no_nested(fn.node):
-        if isinstance(n, ast.Call) and re.fullmatch(r'output\.(append|extend|insert)', M.call_name(n)):
-            adds.append(n)
-        if isinstance(n, ast.AugAssign) and text(n.target) == 'output':
-            adds.append(n)
-    fresh = [a for a in adds if isinstance(a, ast.Call) and M.call_name(a) == 'output.append' and isinstance(a.args[0], ast.Call)
-             and 'ColumnType' in text(a.args[0])]
-    chk.verdict(R, 'compileColspec creates one fresh column object per column', len(adds) == 1 and len(fresh) == 1,
-                'columns are added by %s: objects shared between columns make a | next to a repeated group mark every repetition'
-                % [text(a) for a in adds], chk.where(fn))
-    star = [n for n in M.walk_no_nested(fn.node) if isinstance(n, ast.If) and text(n.test) == "tok == '*'"]
-    ok = len(star) == 1 and any(isinstance(c, ast.Call) and M.call_name(c) == 'tex.pushTokens' for c in ast.walk(star[0])) \
-        and any(isinstance(l, ast.For) and 'range(num)' in text(l.iter) for l in ast.walk(star[0]))
-    bar = [n for n in M.walk_no_nested(fn.node) if isinstance(n, ast.If) and text(n.test) == "tok == '|'"]
-    okbar = len(bar) == 1 and "output[-1].style['border-right']" in text(bar[0]) and 'leftborder = True' in text(bar[0])
-    chk.verdict(R, 'compileColspec: * re-reads its tokens; | marks the adjacent column', ok and okbar,
-                'the * arm must push the repeated specification back num times and the | arm must mark output[-1] (or the left border)', chk.where(fn))
+    cases = [('|l|c|', ['l:left+right', 'c:right']),
+             ('lcr', ['l:', 'c:', 'r:']),
+             ('l|*{2}{c|}r', ['l:right', 'c:right', 'c:right', 'r:']),
+             ('*{3}{l}', ['l:', 'l:', 'l:']),
+             ('|p{3cm}|l', ['p:left+right', 'l:']),
+             ('l@{x}r|', ['l:', 'r:right']),
+             ('*{2}{l|r}c', ['l:right', 'r:', 'l:right', 'r:', 'c:']),
+             ('l | c', ['l:right', 'c:'])]
+    for spec, want in cases:
+        d = D.Dom(m)
+        toks = []
+        i = 0
+        while i < len(spec):
+            ch = spec[i]
+            if ch == '{':
+                j = spec.index('}', i)
+                inner = spec[i + 1:j]
+                # one level of nesting is all the cases need
+                g = A.Obj('{%s}' % inner, {'__group': [d.text(c, c) for c in inner], 'isElementContentWhitespace': False, 'nodeType': D.ELEMENT})
+                toks.append(g)
+                i = j + 1
+                continue
+            toks.append(d.text(ch, ch))
+            i += 1
+        tex = A.Obj('tex', {'__stream': A.Stream([])})
+
+        def fmt(s, v):
+            if not isinstance(v, list):
+                return 'returns %r' % (v,)
+            out = []
+            if len({id(x) for x in v}) != len(v):
+                out.append('(columns share one object)')
+            for x in v:
+                if not isinstance(x, A.Obj):
+                    out.append(repr(x))
+                    continue
+                st = x.attrs.get('style')
+                b = sorted(k[7:] for k in st if k.startswith('border-')) if isinstance(st, dict) else ['?']
+                out.append('%s:%s' % (str(st.get('text-align')) if isinstance(st, dict) else '?', '+'.join(b)))
+            left = [D.label_of(x) for x in s.env['tex'].attrs['__stream'].items[s.env['tex'].attrs['__stream'].pos:]]
+            if left:
+                out.append('(left in the stream: %s)' % ' '.join(left))
+            return ' '.join(out)
+        try:
+            outs = trun(m, fn, {'cls': Array, 'tex': tex, 'colspec': toks}, Array, max_iter=40)
+        except D.Imprecise as e:
+            chk.undecided(R, 'colspec %s' % spec, str(e), chk.where(fn))
+            continue
+        got = outcomes(outs, fmt)
+        chk.decide(R, 'colspec %s' % spec, got, {' '.join(want)}, 'the column specification %s compiles to %s, expected %s (type:borders per column)'
+                   % (spec, sorted(got), want), chk.where(fn), str(sorted(got)))
